@@ -131,9 +131,9 @@ def netlist_text(n, emb):
             attrs.append(f"center: [{num(emb.coord(F(xn, d)))}, {num(emb.coord(F(yn, d)))}]")
         if term:
             attrs.append("terminal: true")
-        elif fixed:
-            attrs.append("fixed: true")
-        elif hard:
+        if fixed:
+            attrs.append("fixed: true")          # (a fixed pin says both)
+        elif hard and not term:
             attrs.append("hard: true")
         if flip:
             attrs.append("flip: true")
@@ -506,7 +506,8 @@ def _catalogue():
             mod("H", [1, 0, 0, 0], [0, 1], [], [[4, 0, 6, 2, "_"]]),
             mod("P", [1, 0, 0, 1], [0, 1], [], [[4, 2, 6, 4, "_"], [4, 4, 5, 5, "_"]]),
             mod("F", [1, 1, 0, 0], [0, 1], [], [[6, 0, 8, 2, "_"]]),
-            mod("T", [1, 0, 1, 0], [0, 1], [0, 6, 2], [])]
+            mod("T", [1, 0, 1, 0], [0, 1], [0, 6, 2], []),
+            mod("G", [1, 1, 1, 0], [0, 1], [16, 6, 2], [])]
     moved = [mod(m["name"] + "2", m["kind"], m["area"], [m["center"][0] + 16, m["center"][1], 2] if m["center"] else [],
                  [[t[0] + 8, t[1], t[2] + 8, t[3], t[4]] for t in m["rects"]]) for m in base]
     return base + moved
@@ -522,6 +523,7 @@ def features_of(case, ev, embs):
         f["weighted"] = any(e["w"] != [1, 1] for e in net["nets"])
         f["terminal"] = any(m["kind"][2] for m in net["mods"])
         f["flip"] = any(m["kind"][3] for m in net["mods"])
+        f["fixed_terminal"] = any(m["kind"][1] and m["kind"][2] for m in net["mods"])
     if case["prod"].startswith("floorset"):
         f["weighted"] = any(e[2] != [1, 1] for e in src["b2b"] + src["p2b"])
     return f
